@@ -97,10 +97,11 @@ func replaceLaws(re *regexp2.Regexp, gt *ref.GroupTable, s, repl string, startAt
 		}
 		return "", "", 0
 	}
-	if gt.ECMA && strings.Contains(repl, "${\\") {
-		// under ECMAScript a group name may start with a \u escape, so "${\" opens a name and any
-		// other escape is rejected ("invalid capture group name"): not a string of the $-grammar
-		st("replacement-ecma-name-escape")
+	if gt.ECMA && ecmaOddBrace(repl) {
+		// under ECMAScript a group name may start with $, _ or a \u escape, so "${$" or "${\" opens a
+		// name and whatever does not complete one is rejected ("invalid capture group name"): not a
+		// string of the $-grammar
+		st("replacement-ecma-name-start")
 		return "", "", 0
 	}
 	if ref.ReplacementOverflows(repl) {
@@ -233,6 +234,23 @@ func splitLaws(re *regexp2.Regexp, s string, count int, st c09Stats) (detail, in
 		return fmt.Sprintf("Split(%q, %d): re-joining the pieces with the matched texts gives %q", s, count, rebuilt.String()), ""
 	}
 	return "", ""
+}
+
+// ecmaOddBrace: some "${" is not followed by a plain word and a closing brace.
+func ecmaOddBrace(repl string) bool {
+	for i := 0; i+1 < len(repl); i++ {
+		if repl[i] != '$' || repl[i+1] != '{' {
+			continue
+		}
+		j := i + 2
+		for j < len(repl) && (repl[j] == '_' || repl[j] >= '0' && repl[j] <= '9' || repl[j] >= 'a' && repl[j] <= 'z' || repl[j] >= 'A' && repl[j] <= 'Z') {
+			j++
+		}
+		if j == i+2 || j >= len(repl) || repl[j] != '}' {
+			return true
+		}
+	}
+	return false
 }
 
 func groupTableOf(re *regexp2.Regexp, opts int) *ref.GroupTable {
